@@ -1,6 +1,6 @@
 (* C04 — register allocation never lets one live value overwrite another. *)
 From Coq Require Import List ZArith Bool Arith.
-From PV Require Import Model.RegAlloc Model.RegAllocProofs.
+From PV Require Import Model.RegAlloc Model.RegAllocProofs Model.RegScopes.
 Import ListNotations.
 
 (* Interval colouring (assign_colors), for EVERY list of symbols in any order and with any
@@ -46,3 +46,20 @@ Example C04_nonvacuous :
   sort_scopes 5 [(1, [0]); (2, [0; 1])]%nat [2; 1; 0]%nat [] = Some [0; 1; 2]%nat /\
   sort_scopes 5 [(1, [2]); (2, [1])]%nat [2; 1; 0]%nat [] = None.
 Proof. vm_compute. repeat split; reflexivity. Qed.
+
+(* the scope loop of assign_registers as a whole (after fix 65c3091): for EVERY call graph, every
+   assignment of colours and every order in which callers precede their callees, a scope uses no
+   register that any of its TRANSITIVE callers uses - also when the chain passes through functions that
+   own no register *)
+Theorem C04_no_register_shared_with_a_transitive_caller :
+  forall callers colours order s', topo callers [] order -> RegScopes.run callers colours init order = Some s' ->
+    forall a x r, ancestor callers a x -> In x order -> In r (lookup (used s') x) -> ~ In r (lookup (used s') a).
+Proof. exact no_register_shared_with_a_transitive_caller. Qed.
+
+(* per compile: the exported order, called_from, colours and registers are run through the model; an
+   accepted certificate proves the statement for that very allocation *)
+Theorem C04_allocation_certificate_sound :
+  forall order cf cols given, check_alloc order cf cols given = true ->
+    forall a x r, ancestor (assoc cf []) a x -> In x order -> In a order ->
+      In r (lookup given x) -> ~ In r (lookup given a).
+Proof. exact check_alloc_sound. Qed.
